@@ -6,6 +6,7 @@ import (
 	"fmt"
 	"go/constant"
 	"go/token"
+	"go/types"
 	"sort"
 	"strings"
 
@@ -19,7 +20,7 @@ func init() {
 		Explain: "Decides on every path: the producer dispatcher applies interceptors only on a message's first pass (guard msg.retries == 0, which also excludes the internal markers) (C18.once-producer); in the consumer feeder every send of a message on Messages() is preceded by exactly one application of the interceptors to that element — in particular the slow-reader loop, which restarts at the element the outer loop already intercepted, must not intercept it again (C18.once-consumer); " +
 			"OnSend/OnConsume are invoked only inside the recover wrapper, whose deferred closure calls recover() (C18.contained); interceptor slices are walked in index order (C18.order). " +
 			"NOT covered: what an interceptor does to the message; panics outside the interceptor call itself.",
-		Rules: []func(*Ctx){c18Producer, c18Consumer, c18Contained, c01Retry},
+		Rules: []func(*Ctx){c18Producer, c18Consumer, c18Contained, c01Retry, c18ResetOnHandBack},
 	})
 }
 
@@ -392,5 +393,107 @@ func c18Contained(c *Ctx) {
 		}
 		sort.Strings(others)
 		c.Check(len(others) == 0, rule, fn, "only-wrapper-calls:"+w.method, nil, w.method+" is invoked only by the recover wrapper", w.method+" is also invoked unprotected by "+strings.Join(others, ", "), nil)
+	}
+}
+
+// C18.reset-on-hand-back (shared with C01): a message handed back to the application starts from scratch if it is
+// submitted again.
+func c18ResetOnHandBack(c *Ctx) {
+	p := c.P
+	rule := "C18.reset-on-hand-back"
+	c.Doc(rule, "asyncProducer.returnError / returnSuccesses: before a message is sent on the errors / successes channel, its retries and flags fields are set to 0 on the message object itself — a store through the message pointer, or a call of a function that on every path stores 0 to those fields through the pointer parameter it is given (ProducerMessage.clear with a pointer receiver).  The dispatcher takes retries == 0 for 'first pass of an application message': a message handed back with its old count and submitted again is not intercepted, not counted in flight and not partitioned")
+	c.Floor(rule, 2)
+	// resets(f, k): does function f, on every path, store 0 to <param k>.field?
+	mustReset := func(f *ssa.Function, k int, field string) bool {
+		if f == nil || f.Blocks == nil || k >= len(f.Params) {
+			return false
+		}
+		if _, isPtr := f.Params[k].Type().Underlying().(*types.Pointer); !isPtr {
+			return false
+		}
+		ev := func(it Item) bool {
+			st, ok := it.In.(*ssa.Store)
+			if !ok || !ConstInt(0)(st.Val) {
+				return false
+			}
+			fa, ok := st.Addr.(*ssa.FieldAddr)
+			if !ok || canon(fa.X) != ssa.Value(f.Params[k]) && paramOfCell(canon(fa.X)) != f.Params[k] {
+				return false
+			}
+			_, name, _, ok := ownerField(fa)
+			return ok && name == field
+		}
+		esc, _ := WholeFn(f).Escape(ev)
+		return !esc
+	}
+	resetOf := func(msg ssa.Value, field string) Ev {
+		return func(it Item) bool {
+			switch x := it.In.(type) {
+			case *ssa.Store:
+				if !ConstInt(0)(x.Val) {
+					return false
+				}
+				fa, ok := x.Addr.(*ssa.FieldAddr)
+				if !ok || !sameValue(fa.X, msg) {
+					return false
+				}
+				_, name, _, ok := ownerField(fa)
+				return ok && name == field
+			case *ssa.Call:
+				f := x.Call.StaticCallee()
+				if f == nil {
+					return false
+				}
+				for i, a := range x.Call.Args {
+					if sameValue(a, msg) && mustReset(f, i, field) {
+						return true
+					}
+				}
+			}
+			return false
+		}
+	}
+	for _, t := range []struct{ fn, ch string }{{"asyncProducer.returnError", "asyncProducer.errors"}, {"asyncProducer.returnSuccesses", "asyncProducer.successes"}} {
+		fn := c.NeedFn(rule, t.fn)
+		if fn == nil {
+			continue
+		}
+		fi := Info(fn)
+		sends := fi.Find(SendOn(FieldLoad(t.ch), nil))
+		if len(sends) == 0 {
+			c.Unresolved(rule, "send on "+t.ch+" in "+t.fn)
+			continue
+		}
+		for _, s := range sends {
+			snd := s.In.(*ssa.Send)
+			// the message handed back: the value sent, or the Msg field of the ProducerError literal sent
+			var msg ssa.Value
+			if isPtrToNamed(snd.X.Type(), "ProducerMessage") {
+				msg = snd.X
+			} else {
+				for _, l := range p.literalsOf(fn, "ProducerError") {
+					if l.fields["Msg"] != nil {
+						msg = l.fields["Msg"]
+					}
+				}
+			}
+			if msg == nil {
+				c.Unresolved(rule, "the message handed back by "+t.fn)
+				continue
+			}
+			reg := WholeFn(fn)
+			if l := fi.InnermostLoop(snd.Block()); l != nil {
+				reg = fi.Iteration(l)
+			}
+			var bad []string
+			var wpath []*ssa.BasicBlock
+			for _, field := range []string{"retries", "flags"} {
+				if it, path := reg.Reach(IsItem(s), resetOf(msg, field)); !it.IsZero() {
+					bad = append(bad, field)
+					wpath = path
+				}
+			}
+			c.Check(len(bad) == 0, rule, fn, "reset-before-send:"+t.ch, snd, "retries and flags are reset on the message before it is handed back", "a message can be handed back on "+t.ch+" without "+strings.Join(bad, "/")+" having been reset on the message object itself (a reset applied to a copy of the struct does nothing): if the application submits the message again the dispatcher takes it for an internal retry — interceptors are skipped, it is not counted in flight (negative WaitGroup later) and not partitioned", wpath)
+		}
 	}
 }
